@@ -34,13 +34,15 @@ INVS = ["TypeOK", "TrainingHasNoCache", "CacheIsCurrent"]
 
 
 def consts(alias, lad, load=True, apply_=True, train=True, inplace=False):
+    """load / apply_ / train: True (the step drops the cache), False (never), "either" (permissive)."""
     b = lambda x: "TRUE" if x else "FALSE"
+    sset = lambda x: "{TRUE, FALSE}" if x == "either" else "{%s}" % b(x)
     return {
         "WeightAliasesParam": b(alias),
         "LadSaves": b(lad),
-        "LoadInvalidates": b(load),
-        "ApplyInvalidates": b(apply_),
-        "TrainInvalidates": b(train),
+        "LoadInvalidates": sset(load),
+        "ApplyInvalidates": sset(apply_),
+        "TrainInvalidates": sset(train),
         "WithInplace": b(inplace),
     }
 
@@ -260,28 +262,49 @@ class Driver:
 VARIANTS = ["direct", "train_arg", "parent"]
 
 
+def spec_projection(st):
+    return (bool(st["training"]), bool(st["usingCache"]), str(st["dt"]), (bool(st["cw"]["filled"]), bool(st["ci"]["filled"]), bool(st["cl"]["filled"])))
+
+
 def walk_task(task):
-    """Runs in a worker process: one class, one initial state, a list of walks."""
+    """Runs in a worker process: one class, one initial state, one way of switching modes.  Online
+    conformance walk over the permissive graph (follows what the real object does), then random steps."""
+    import random as _random
+
     import torch
 
     torch.set_num_threads(1)
-    cls, D, uc, seed, walks, label = task
-    out = {"traces": [], "fails": [], "steps": 0, "calls": 0, "cls": cls, "label": label, "drift": []}
-    for wi, walk in enumerate(walks):
-        try:
-            d = Driver(cls, D, uc, seed + wi, VARIANTS[(seed + wi) % 3])
-        except Exception as e:  # constructor rejected / broken: not this property's business
-            out["drift"].append("%s: constructor failed: %r" % (cls, e))
-            continue
-        for name, args in walk:
-            ev, fail = d.apply(name, args)
-            out["steps"] += 1
-            if name == "Call":
-                out["calls"] += 1
-            if fail:
-                fail.update(cls=cls, D=D, uc0=uc, seed=seed + wi, history=list(d.history), step=len(d.history), variant=d.variant)
-                out["fails"].append(fail)
-        out["traces"].append({"uc": uc, "cls": cls, "ev": d.events})
+    from vcore.walk import online_cover
+
+    cls, D, uc, seed, variant, g, init, max_steps, random_steps, label = task
+    out = {"traces": [], "fails": [], "steps": 0, "calls": 0, "cls": cls, "label": label, "drift": [], "pairs": set()}
+    try:
+        d = Driver(cls, D, uc, seed, variant)
+    except Exception as e:  # constructor rejected / broken: not this property's business
+        out["drift"].append("%s: constructor failed: %r" % (cls, e))
+        return out
+
+    def apply_fn(name, args):
+        src_hist = len(d.history)
+        ev, fail = d.apply(name, args)
+        out["steps"] += 1
+        if name == "Call":
+            out["calls"] += 1
+            if ev["uc"] and not ev["tr"]:
+                out["pairs"].add((cls, tuple(ev["occ"]), ev["dt"], str(args[0]), bool(args[1])))
+        if fail:
+            fail.update(cls=cls, D=D, uc0=uc, seed=seed, history=list(d.history), step=len(d.history), variant=d.variant)
+            out["fails"].append(fail)
+        return (ev["tr"], ev["uc"], ev["dt"], tuple(ev["occ"]))
+
+    def strip(lab_args):
+        return lab_args
+
+    res = online_cover(g, init, lambda n, a: apply_fn(n, a[:2] if n == "Call" else a), spec_projection, max_steps=max_steps, rnd=_random.Random(seed), random_steps=random_steps)
+    out["pairs_tried"] = res["pairs_tried"]
+    for cur, lab, proj in res["left_model"][:3]:
+        out["drift"].append("%s (%s): after %s the real object is in %s, which no design of the permissive model allows" % (cls, variant, lab, proj))
+    out["traces"].append({"uc": uc, "cls": cls, "ev": d.events})
     return out
 
 
@@ -299,21 +322,15 @@ def validate_traces(run, traces_by_shape):
                 json.dump({"total": sum(len(t["ev"]) + 1 for t in remaining), "traces": [{"uc": t["uc"], "ev": t["ev"]} for t in remaining]}, f)
             cfgt = "SPECIFICATION TSpec\nCHECK_DEADLOCK TRUE\nPOSTCONDITION AllAccepted\n"
             cfgt += "CONSTANTS " + " ".join("%s = %s" % kv for kv in consts(alias, lad).items()) + "\n"
-            try:
-                res = T.run_tlc("TraceLinearCache", cfgt, workers=1, coverage=False, env_extra={"TRACE_FILE": path}, deadlock=True, name="trace_lc")
-                ok = res.ok
-                out = res.stdout
-            except T.MachineryError as e:
-                ok = False
-                out = str(e)
-            if ok:
+            res = T.run_tlc("TraceLinearCache", cfgt, workers=1, coverage=False, env_extra={"TRACE_FILE": path}, deadlock=True, name="trace_lc")
+            out = res.stdout
+            if res.ok:
                 accepted += len(remaining)
                 run.states += res.distinct
                 run.transitions += res.generated
                 break
-            m = re.search(r"Deadlock reached", out)
-            if not m:
-                raise T.MachineryError("trace validation failed unexpectedly:\n" + out[-3000:])
+            if res.violated != "deadlock":
+                raise T.MachineryError("trace validation failed unexpectedly (%s):\n%s" % (res.violated, out[-3000:]))
             # last state of the counterexample names tid and l
             tids = re.findall(r"/\\ tid = (\d+)", out)
             ls = re.findall(r"/\\ l = (\d+)", out)
@@ -331,9 +348,10 @@ def validate_traces(run, traces_by_shape):
 # --------------------------------------------------------------------------- main
 def main(run, replay=None):
     run.rule = (
-        "cases = steps of walks covering every edge of the permissive LinearCache state graph, per class and "
-        "initial state; non-trivial = distinct (class, source state, action) triples whose action is a forward/"
-        "inverse call executed in cached mode"
+        "cases = steps of online conformance walks over the permissive LinearCache state graph (every design choice "
+        "nondeterministic; the walk follows what the real object does and tries every action in every state it can reach), "
+        "per class, initial state and way of switching modes, plus seeded random steps; non-trivial = distinct (class, "
+        "slot occupancy, dtype, direction, backward) of calls executed in cached mode"
     )
     if replay:
         c = replay["case"]
@@ -373,7 +391,7 @@ def main(run, replay=None):
     for alias, lad in shapes:
         res = T.run_tlc(
             "LinearCache",
-            T.cfg(constants=consts(alias, lad, load=False, apply_=False, train=False), view=None if thorough else "View"),
+            T.cfg(constants=consts(alias, lad, load="either", apply_="either", train="either"), view="View"),
             dot=True,
             name="lc_permissive",
             coverage=False,
@@ -383,38 +401,21 @@ def main(run, replay=None):
         run.transitions += res.generated
 
     tasks = []
-    rnd = random.Random(run.seed)
     for cls, shape in CLASSES.items():
         g = graphs[shape]
         for init in g.init:
             uc = bool(g.states[init]["usingCache"])
-            walks = covering_walks(g, init)
-            awalks = [[(g.edges[ei][2], g.edges[ei][3]) for ei in w] for w in walks]
-            # random long histories in addition (seeded)
-            nrand = 40 if thorough else 6
-            for _ in range(nrand):
-                cur, w = init, []
-                for _ in range(60):
-                    outs = g.out.get(cur, [])
-                    if not outs:
-                        break
-                    ei = rnd.choice(outs)
-                    w.append((g.edges[ei][2], g.edges[ei][3]))
-                    cur = g.edges[ei][1]
-                awalks.append(w)
-            for D in ([1, 2, 3] if thorough else [2]):
-                for chunk in range(0, len(awalks), 8):
-                    tasks.append((cls, D, uc, run.seed * 1000 + chunk, awalks[chunk : chunk + 8], "%s/D=%d/uc=%s" % (cls, D, uc)))
-            # distinct non-trivial cases
-            for w in walks:
-                for ei in w:
-                    s, d_, name, args = g.edges[ei]
-                    if name == "Call" and args[3]:
-                        run.nontrivial.add((cls, s, name, args[:2]))
+            for vi, variant in enumerate(VARIANTS):
+                for D in ([1, 2, 3] if thorough else [2]):
+                    for rep in range(3 if thorough else 1):
+                        tasks.append((cls, D, uc, run.seed * 1000 + 10 * vi + rep, variant, g, init, 6000 if thorough else 2500, 600 if thorough else 150, "%s/D=%d/uc=%s/%s" % (cls, D, uc, variant)))
     traces_by_shape = {}
+    pairs_tried = 0
     if True:
         for out in pmap(walk_task, tasks):
             run.evaluations += out["steps"]
+            pairs_tried += out.get("pairs_tried", 0)
+            run.nontrivial |= out["pairs"]
             for dmsg in out["drift"]:
                 run.note_drift(dmsg)
             for t in out["traces"]:
@@ -422,7 +423,8 @@ def main(run, replay=None):
             for f in out["fails"]:
                 attrs = {"cls": f["cls"], "outcome": f["outcome"], "prior_cached_backward": f.get("prior_cached_backward")}
                 case = {k: f[k] for k in ("cls", "D", "uc0", "seed", "history", "variant")}
-                run.violation(attrs, "%s (%s mode switching) after %d steps: %s (%s); last actions %s" % (f["cls"], f["variant"], f["step"], f["outcome"], f["detail"], f["history"][-5:]), case)
+                run.violation(attrs, "%s (%s mode switching) after %d steps: %s (%s); last actions %s" % (f["cls"], f["variant"], f["step"], f["outcome"], f["detail"], f["history"][-7:]), case)
+    run.extra["state_action_pairs_tried"] = pairs_tried
     for shape, trs in traces_by_shape.items():
         if trs:
             run.sample({"class": trs[0]["cls"], "history_prefix": trs[0]["ev"][:8]})
